@@ -708,7 +708,7 @@ func (t *tr) specCall(c *ast.CallExpr, sc *specCtx) Term {
 			return t.specErr(sc, "has: not a map: %s", m.S)
 		}
 		dom, _, _ := t.mapHeaps(mt)
-		return sel(sel(t.readIn(sc.cur, dom), m), k)
+		return and(neq(m, intLit(0)), sel(sel(t.readIn(sc.cur, dom), m), k)) // a nil map has no keys
 	case "allocated":
 		if !need(1) {
 			return tFalse
